@@ -30,8 +30,14 @@ two warn exits, fork asserts, branch fork / sole reader / warn).
   predicate of C10) the IOPATH look-up answers `l` iff `l` is THE line whose reader is pin `pin_index(kind, pin)` of the cell of
   that name; `cell_lookup_spec`, `pin_lookup_skip`; `interconnect_lookup_spec` — the answered line enters pin 0 of the fork that
   drives the destination pin, that fork has one reader, and it is the signal fork itself (sole line) or a branch fork fed by the
-  signal fork of the origin pin; `iopath_lands_circuit`, `interconnect_lands_circuit` — the landing theorems with these
-  look-ups in place of the tables (the auditor's witness "a table that sends every pin to line 0" is no instance any more).
+  signal fork of the origin pin; `iopath_lands_lookup`, `interconnect_lands_lookup` — the landing theorems with the TABLES of
+  these look-ups in place of free tables (the auditor's witness "a table that sends every pin to line 0" is no instance any more).
+  REAL RESULT (second audit, item C14): the tables `pinLineOf` / `icLineOf` read `raise` and `skip` both as "no line", so the
+  table-level arrays exist where the real call raises.  `iopath_lands_circuit`, `interconnect_lands_circuit` are therefore stated
+  about `iopathsC` / `interconnectsC` (the functions the driver `sdfc` ties; `none` = the real call raises, no array at all):
+  `iopathsC … = some A → A d l ip op = …`; `iopaths_raises_iff`, `interconnects_raises_iff` say exactly when there is no array;
+  `pin_lookup_raise` (third outcome of `pinLook`, next to `pin_lookup_spec` / `pin_lookup_skip`), `interconnect_lookup_raise`,
+  `interconnect_lookup_skip` (the outcomes of `icLook` in terms of the exits below).
   COMPLETENESS (Proofs/SdfCircComplete.lean): `interconnect_lookup_complete` — on a well-formed dump, whenever the place that
   description names exists, `icLook` answers it; `interconnect_lookup_iff` (`icLook … = .line l ↔ IcPlace … l`: exactly the
   entries that have a place land, none is lost silently), `interconnect_place_unique`, `interconnect_place_no_warn`.
@@ -63,7 +69,8 @@ two warn exits, fork asserts, branch fork / sole reader / warn).
   post-parse model fed with the MODEL's block list equal the real arrays; (b) the post-parse model — in the mode that a probe
   of the real `sdf.parse` selects — against the real `sdf.parse(text).iopaths/.interconnects` on generated circuits and texts,
   twice: with tables exported from the real circuit by structural search (driver `sdf`), and with the concrete look-ups fed
-  with the circuit dump and `tlib.cells` (driver `sdfc`): whole arrays, the raise of `interconnects()` on a file without
+  with the circuit dump and `tlib.cells` (driver `sdfc`, which also answers `NNet.wf` of the dump — the hypothesis of every
+  look-up theorem — checked per case, tag `c14-hyp:sdfc-wf:*`): whole arrays, the raise of `interconnects()` on a file without
   top-level block, and PER ENTRY the line index (or warn / raise) that the real loop picks, observed by running each entry alone
   through the real `iopaths()` / `interconnects()`; and the EXIT per INTERCONNECT entry with the kind of warning read from
   kyupy's log (line / "No line to annotate pin" / "No branchfork" / raise) against `icLookX` (driver `sdfc … icx`, tags
@@ -579,9 +586,11 @@ theorem interconnect_lookup_spec (C : NNet) (hwf : C.wf = true) (tl : PinIdx) (c
        ((C.net.line lo).reader ≠ (C.net.line li).driver ∧ (C.net.line l).driver = (C.net.line lo).reader)) :=
   icLook_line_spec C (WF.of_wf hwf) tl c1 p1 c2 p2 l h
 
-/-- `iopath_lands` with the look-up the real code performs: the values of the entry stand on THE line that feeds pin
-`tlib.pin_index(kind, pin)` of the instance (`hcell`, `hpin`, `hreader`: the declarative description of that line). -/
-theorem iopath_lands_circuit (C : NNet) (hwf : C.wf = true) (tl : PinIdx) (df : DelayFile) (pre post : List (String × Entry))
+/-- `iopath_lands` with the TABLE of the look-up the real code performs (`pinLineOf`: `raise` and `skip` both read as "no line"):
+the values of the entry stand on THE line that feeds pin `tlib.pin_index(kind, pin)` of the instance (`hcell`, `hpin`, `hreader`:
+the declarative description of that line).  This array is defined also where the real call raises (second audit, C14): the
+statement about the REAL result is `iopath_lands_circuit` below. -/
+theorem iopath_lands_lookup (C : NNet) (hwf : C.wf = true) (tl : PinIdx) (df : DelayFile) (pre post : List (String × Entry))
     (n : String) (e : Entry) (i idx l d : Nat) (ip op : Bool)
     (hsplit : namedEntries df = pre ++ (n, e) :: post)
     (hcell : cellOf C (stripBackslash n) = some i) (hpin : tl (C.net.node i).kind (pinOf e.a) = some idx)
@@ -593,9 +602,10 @@ theorem iopath_lands_circuit (C : NNet) (hwf : C.wf = true) (tl : PinIdx) (df : 
   have := (pin_lookup_spec C hwf tl (stripBackslash n) (pinOf e.a) l).mpr ⟨i, idx, hcell, hpin, hl, hreader.1, hreader.2⟩
   simp [pinLineOf, this, Look.toOpt]
 
-/-- `interconnect_lands` with the look-up the real code performs (`icLookE`: names split at `/`, backslashes removed, the
-fork decision of `icLook`, described by `interconnect_lookup_spec`). -/
-theorem interconnect_lands_circuit (C : NNet) (tl : PinIdx) (df : DelayFile) (pre post : List Entry) (e : Entry)
+/-- `interconnect_lands` with the TABLE of the look-up the real code performs (`icLineOf` of `icLookE`: names split at `/`,
+backslashes removed, the fork decision of `icLook`, described by `interconnect_lookup_spec`; `raise` and `skip` both read as
+"no line").  The statement about the REAL result (no array when a look-up raises) is `interconnect_lands_circuit` below. -/
+theorem interconnect_lands_lookup (C : NNet) (tl : PinIdx) (df : DelayFile) (pre post : List Entry) (e : Entry)
     (l d : Nat) (ip op : Bool)
     (hsplit : icEntries df = some (pre ++ e :: post))
     (hnz : ∃ v ∈ norm e.r ++ norm e.f, v ≠ 0)
@@ -606,6 +616,61 @@ theorem interconnect_lands_circuit (C : NNet) (tl : PinIdx) (df : DelayFile) (pr
   unfold icLookE at hlook
   simp only at hlook
   simp [icLineOf, hlook, Look.toOpt]
+
+/-! ### the result of the REAL calls: `iopathsC` / `interconnectsC` (`none` = the call raises; second audit, item C14) -/
+
+/-- IOPATH look-up, third outcome: it RAISES exactly when the cell exists and the pin name is not in the library
+(`AssertionError` of `pin_index`) or its index lies beyond `cell.ins` (`IndexError`).  With `pin_lookup_spec` (answer) and
+`pin_lookup_skip` (warn) every exit of `pinLook` is characterised. -/
+theorem pin_lookup_raise (C : NNet) (tl : PinIdx) (name pin : String) :
+    pinLook C tl name pin = .raise ↔
+      ∃ i, cellOf C name = some i ∧
+        (tl (C.net.node i).kind pin = none ∨ ∃ idx, tl (C.net.node i).kind pin = some idx ∧ (C.net.node i).ins.length ≤ idx) :=
+  pinLook_raise_iff C tl name pin
+
+/-- `iopaths(circuit, tlib)` raises (no array at all) exactly when the look-up of SOME entry of the file raises -/
+theorem iopaths_raises_iff (C : NNet) (tl : PinIdx) (df : DelayFile) :
+    iopathsC C tl df = none ↔ ∃ p ∈ namedEntries df, ioLook C tl p.1 p.2 = .raise :=
+  iopathsC_none_iff C tl df
+
+/-- `interconnects(circuit, tlib)` raises exactly when the file has no top-level block, or an entry that is not all-zero
+(`icSkip_false_iff`) has a name with two `/` or a look-up that raises (`interconnect_lookup_exits`: which ones) -/
+theorem interconnects_raises_iff (C : NNet) (tl : PinIdx) (df : DelayFile) :
+    interconnectsC C tl df = none ↔
+      icEntries df = none ∨ ∃ es, icEntries df = some es ∧ ∃ e ∈ es, icSkip (norm e.r) (norm e.f) = false ∧
+        (slashOK e.a = false ∨ slashOK e.b = false ∨ icLookE C tl e = .raise) :=
+  interconnectsC_none_iff C tl df
+
+/-- **IOPATH landing, real result**: WHEN `iopaths(circuit, tlib)` returns an array `A` (`iopathsC … = some A`: no look-up of the
+file raises), the values of the entry stand in `A` on THE line that feeds pin `tlib.pin_index(kind, pin)` of the instance.
+Where the real call raises there is no array and the theorem says nothing (the auditor's witness — a block with a second
+entry for a pin `Q` that does not exist — is no instance any more: `hA` fails there). -/
+theorem iopath_lands_circuit (C : NNet) (hwf : C.wf = true) (tl : PinIdx) (df : DelayFile) (A : Arr)
+    (hA : iopathsC C tl df = some A) (pre post : List (String × Entry))
+    (n : String) (e : Entry) (i idx l d : Nat) (ip op : Bool)
+    (hsplit : namedEntries df = pre ++ (n, e) :: post)
+    (hcell : cellOf C (stripBackslash n) = some i) (hpin : tl (C.net.node i).kind (pinOf e.a) = some idx)
+    (hl : l < C.net.lines.size) (hreader : (C.net.line l).reader = i ∧ (C.net.line l).rpin = idx)
+    (hip : ip ∈ polsOf e.a) (hd : d < 3)
+    (hpost : ∀ p ∈ post, ∀ w, ioWrite (pinLineOf C tl) p.1 p.2 = some w → w.covers l ip = false) :
+    A d l ip op = (norm (if op then e.f else e.r)).getD d 0 := by
+  rw [iopathsC_eq hA]
+  exact iopath_lands_lookup C hwf tl df pre post n e i idx l d ip op hsplit hcell hpin hl hreader hip hd hpost
+
+/-- **INTERCONNECT landing, real result**: WHEN `interconnects(circuit, tlib)` returns an array `A` (`interconnectsC … = some A`:
+top-level block present, no kept entry with two `/`, no look-up of a kept entry raises), the values of an entry that is not
+all-zero and whose look-up answers `l` stand in `A` on line `l`. -/
+theorem interconnect_lands_circuit (C : NNet) (tl : PinIdx) (df : DelayFile) (A : Arr)
+    (hA : interconnectsC C tl df = some A) (pre post : List Entry) (e : Entry)
+    (l d : Nat) (ip op : Bool)
+    (hsplit : icEntries df = some (pre ++ e :: post))
+    (hnz : ∃ v ∈ norm e.r ++ norm e.f, v ≠ 0)
+    (hlook : icLookE C tl e = .line l) (hd : d < 3)
+    (hpost : ∀ e' ∈ post, ∀ w, icWrite (icLineOf C tl) e' = some w → w.line ≠ l) :
+    A d l ip op = (norm (if op then e.f else e.r)).getD d 0 := by
+  have h := interconnect_lands_lookup C tl df pre post e l d ip op hsplit hnz hlook hd hpost
+  rw [interconnectsC_eq hA] at h
+  simpa using h
 
 /-! ### completeness of the INTERCONNECT look-up and every exit (audit finding 7, open item) -/
 
@@ -680,6 +745,24 @@ theorem interconnect_lookup_exits (C : NNet) (hwf : C.wf = true) (hst : icStruct
   ⟨icLookX_line_struct C (WF.of_wf hwf) hst tl c1 p1 c2 p2, icLookX_noBranch_struct C (WF.of_wf hwf) hst tl c1 p1 c2 p2,
    icLookX_warnPin_iff C tl c1 p1 c2 p2, icLookX_raise_struct C (WF.of_wf hwf) hst tl c1 p1 c2 p2⟩
 
+/-- the raise exit at the level of `icLook` (the three outcomes answer / skip / raise of `Look`): same condition -/
+theorem interconnect_lookup_raise (C : NNet) (hwf : C.wf = true) (hst : icStructOKB C = true) (tl : PinIdx) (c1 : String)
+    (p1 : Option String) (c2 : String) (p2 : Option String) :
+    icLook C tl c1 p1 c2 p2 = .raise ↔
+      IcUnresolved C tl c1 p1 c2 p2 ∨
+      ∃ i1 q1 i2 q2 lo li, IcEnds C tl c1 p1 c2 p2 i1 q1 i2 q2 ∧
+        (C.net.node i1).outPin q1 = some lo ∧ (C.net.node i2).inPin q2 = some li ∧
+        (C.net.line lo).reader ≠ (C.net.line li).driver ∧
+        ¬ ((C.net.node (C.net.line li).driver).outs.length = 1 ∧
+            ∃ l, FeedsFork C l (C.net.line li).driver ∧ (C.net.line l).driver = (C.net.line lo).reader) := by
+  rw [← icLookX_raise_iff_look]
+  exact (interconnect_lookup_exits C hwf hst tl c1 p1 c2 p2).2.2.2
+
+/-- … and the skip of `icLook` is one of the two warnings -/
+theorem interconnect_lookup_skip (C : NNet) (tl : PinIdx) (c1 : String) (p1 : Option String) (c2 : String) (p2 : Option String) :
+    icLook C tl c1 p1 c2 p2 = .skip ↔ icLookX C tl c1 p1 c2 p2 = .warnPin ∨ icLookX C tl c1 p1 c2 p2 = .warnNoBranch :=
+  icLookX_skip_iff_look C tl c1 p1 c2 p2
+
 /-- the exits WITHOUT the structural hypothesis (every dump, in terms of the fork decision `icFork` of the two lines): what
 `icStructOKB` removes from the list are the raises "a neighbour of a cell is not a fork" and "the fork has no first input". -/
 theorem interconnect_lookup_exits_any (C : NNet) (tl : PinIdx) (c1 : String) (p1 : Option String) (c2 : String) (p2 : Option String) :
@@ -723,7 +806,7 @@ theorem interconnect_not_lost_circuit (C : NNet) (hwf : C.wf = true) (tl : PinId
     (hd : d < 3)
     (hpost : ∀ e' ∈ post, ∀ w, icWrite (icLineOf C tl) e' = some w → w.line ≠ l) :
     (interconnects (icLineOf C tl) df).map (fun A => A d l ip op) = some ((norm (if op then e.f else e.r)).getD d 0) :=
-  interconnect_lands_circuit C tl df pre post e l d ip op hsplit hnz
+  interconnect_lands_lookup C tl df pre post e l d ip op hsplit hnz
     ((interconnect_lookup_iff C hwf tl _ _ _ _ l).mpr hplace) hd hpost
 
 /-- … and in the result of the function with its raises (`interconnectsC`), whenever that is an array -/
@@ -738,14 +821,7 @@ theorem interconnect_not_lost_circuitC (C : NNet) (hwf : C.wf = true) (tl : PinI
     (hpost : ∀ e' ∈ post, ∀ w, icWrite (icLineOf C tl) e' = some w → w.line ≠ l) :
     A d l ip op = (norm (if op then e.f else e.r)).getD d 0 := by
   have h := interconnect_not_lost_circuit C hwf tl df pre post e l d ip op hsplit hnz hplace hd hpost
-  have hA' : interconnects (icLineOf C tl) df = some A := by
-    unfold interconnectsC at hA
-    rw [hsplit] at hA
-    simp only at hA
-    split at hA
-    · exact hA
-    · cases hA
-  rw [hA'] at h
+  rw [interconnectsC_eq hA] at h
   simpa using h
 
 /-- a place can only be missed by raising or warning: with the place, neither happens -/
@@ -772,13 +848,34 @@ example : icLook exCirc exTl "u1" (some "ZN") "u2" (some "I") = .line 2 ∧ icLo
 /-- the hypotheses of `iopath_lands_circuit` / `interconnect_lands_circuit` hold for the auditor's witness file on this circuit;
 the negative INTERCONNECT value lands (repaired skip test) -/
 example : iopaths (pinLineOf exCirc exTl) (parse .merge [⟨["u2"], [[⟨"I", "ZN", [[some 1, some 2, some 3]]⟩]]⟩]) 1 3 true false = 2 :=
-  iopath_lands_circuit exCirc (by decide +kernel) exTl _ [] [] "u2" ⟨"I", "ZN", [1, 2, 3], [1, 2, 3]⟩ 4 0 3 1 true false
+  iopath_lands_lookup exCirc (by decide +kernel) exTl _ [] [] "u2" ⟨"I", "ZN", [1, 2, 3], [1, 2, 3]⟩ 4 0 3 1 true false
     (by decide +kernel) (by decide +kernel) (by decide +kernel) (by decide +kernel) (by decide +kernel) (by decide +kernel)
     (by decide) (by simp)
 example : (interconnects (icLineOf exCirc exTl)
       (parse .merge [⟨[], [[⟨"u1/ZN", "u2/I", [[some 0, some 0, some 0], [some (-1), some 5, some 5]]⟩]]⟩])).map
         (fun A => A 0 2 false true) = some (-1) :=
-  interconnect_lands_circuit exCirc exTl _ [] [] ⟨"u1/ZN", "u2/I", [0, 0, 0], [-1, 5, 5]⟩ 2 0 false true
+  interconnect_lands_lookup exCirc exTl _ [] [] ⟨"u1/ZN", "u2/I", [0, 0, 0], [-1, 5, 5]⟩ 2 0 false true
+    (by decide +kernel) ⟨-1, by decide, by decide⟩ (by decide +kernel) (by decide) (by simp)
+/-- the real-result theorems: the hypothesis `iopathsC … = some A` / `interconnectsC … = some A` is satisfiable (a file whose
+look-ups all succeed or warn) … -/
+example : (iopathsC exCirc exTl (parse .merge [⟨["u2"], [[⟨"I", "ZN", [[some 1, some 2, some 3]]⟩]]⟩, ⟨["ghost"], [[⟨"I", "ZN", [[some 1, some 2, some 3]]⟩]]⟩])).isSome = true
+    ∧ (interconnectsC exCirc exTl (parse .merge [⟨[], [[⟨"u1/ZN", "u2/I", [[some 0, some 0, some 0], [some (-1), some 5, some 5]]⟩]]⟩])).isSome = true := by
+  decide +kernel
+/-- … and fails on the second audit's witness: a block with an entry for pin `Q`, which `INV_X1` does not have — the real
+`iopaths()` raises `AssertionError`, there is no array, `iopath_lands_circuit` has no instance; an INTERCONNECT naming a
+connection the circuit does not have (`exFan`: `u2/ZN -> u3/I`) makes `interconnects()` raise -/
+example : iopathsC exCirc exTl (parse .merge [⟨["u2"], [[⟨"I", "ZN", [[some 1, some 2, some 3]]⟩, ⟨"Q", "ZN", [[some 4, some 5, some 6]]⟩]]⟩]) = none := by
+  decide +kernel
+example : pinLook exCirc exTl "u2" "Q" = .raise := by decide +kernel
+example (A : Arr) (hA : iopathsC exCirc exTl (parse .merge [⟨["u2"], [[⟨"I", "ZN", [[some 1, some 2, some 3]]⟩]]⟩]) = some A) :
+    A 1 3 true false = 2 :=
+  iopath_lands_circuit exCirc (by decide +kernel) exTl _ A hA [] [] "u2" ⟨"I", "ZN", [1, 2, 3], [1, 2, 3]⟩ 4 0 3 1 true false
+    (by decide +kernel) (by decide +kernel) (by decide +kernel) (by decide +kernel) (by decide +kernel) (by decide +kernel)
+    (by decide) (by simp)
+example (A : Arr) (hA : interconnectsC exCirc exTl
+      (parse .merge [⟨[], [[⟨"u1/ZN", "u2/I", [[some 0, some 0, some 0], [some (-1), some 5, some 5]]⟩]]⟩]) = some A) :
+    A 0 2 false true = -1 :=
+  interconnect_lands_circuit exCirc exTl _ A hA [] [] ⟨"u1/ZN", "u2/I", [0, 0, 0], [-1, 5, 5]⟩ 2 0 false true
     (by decide +kernel) ⟨-1, by decide, by decide⟩ (by decide +kernel) (by decide) (by simp)
 /-- fan-out with branch forks (`verilog.parse(branchforks=True)`): `a -> u1 -> n -> {u2 -> z1, u3 -> z2}`; node 3 is the
 signal fork of `n`, nodes 4 and 5 its branch forks -/
@@ -817,6 +914,8 @@ example : icLookX exFan exTl "u1" (some "ZN") "u2" (some "I") = .line 3 ∧ icLo
     ∧ icLookX exFan exTl "u2" (some "ZN") "u3" (some "I") = .raise
     ∧ icLookX exFan exTl "u9" none "u3" (some "I") = .raise
     ∧ icLookX exFan exTl "u1" (some "Q") "u3" (some "I") = .raise := by decide +kernel
+example : interconnectsC exFan exTl (parse .merge [⟨[], [[⟨"u2/ZN", "u3/I", [[some 1, some 2, some 3]]⟩]]⟩]) = none
+    ∧ interconnectsC exFan exTl (parse .merge [⟨["u1"], []⟩]) = none := by decide +kernel
 /-- the place of `u1/ZN -> u3/I` in `exFan` is line 4 (hypothesis of `interconnect_lookup_complete`, stated directly) -/
 example : IcPlace exFan exTl "u1" (some "ZN") "u3" (some "I") 4 :=
   ⟨2, 7, 0, 0, 2, 6, by decide +kernel, by decide +kernel, by decide +kernel, by decide +kernel, by decide +kernel,
